@@ -229,12 +229,22 @@ def args_as_given_rule(fi):
                     break
                 e = e.func.value
             elif (isinstance(e, ast.Subscript) and isinstance(e.value, ast.Name) and e.value.id == var) or (isinstance(e, ast.Name) and e.id == var):
-                verdict = ("ok", "")
+                whole = isinstance(e, ast.Name)
+                tiled = [x for x in ast.walk(c.elt) if isinstance(x, ast.Call) and isinstance(x.func, ast.Attribute) and x.func.attr in ("repeat", "tile")]
+                if whole and tiled:
+                    # a.repeat(n, 1, ..) on the WHOLE argument tiles the batch (rows 0..N-1, 0..N-1, ..): row k of the replicated batch
+                    # belongs to example k % N, whereas the replicated inputs keep each example's rows together (k // n)
+                    verdict = ("bad", "`%s` tiles the whole argument: replicated row k carries example k %% N while the inputs are grouped example by "
+                               "example (repeat_interleave keeps them aligned)" % unparse(tiled[0])[:50])
+                else:
+                    verdict = ("ok", "")
                 break
             else:
                 verdict = ("unknown", unparse(e)[:60])
                 break
-        if verdict[0] == "bad":
+        if verdict[0] == "bad" and "tiles the whole" in verdict[1]:
+            out.append(named("ARGS-GIVEN", fi, role, verdict[1], c))
+        elif verdict[0] == "bad":
             out.append(named("ARGS-GIVEN", fi, role, "%s: integer index / boolean mask / float64 arguments no longer reach the model as given" % verdict[1], c))
         elif verdict[0] == "unknown":
             out.append(unrecognised("ARGS-GIVEN", fi, role, "element expression `%s` is not a window followed by device moves" % verdict[1], c))
